@@ -115,7 +115,10 @@ pub fn run(sc: &Value) -> Value {
         let flat = path.flatten(0.1);
         if let Ok(d) = std::panic::catch_unwind(|| verif_dash_path(&flat, &style.dash_array, style.dash_offset)) {
             let (ops, exact) = crate::pathfam::ops_1024(&d);
+            // a non-finite coordinate is written as the token "f": the specification must not compute with it
+            let finite = !ops.to_string().contains("\"f\"");
             extra.insert("dash_ops".into(), ops);
+            extra.insert("dash_finite".into(), json!(finite));
             extra.insert("dash_exact".into(), json!(exact));
         }
     }
